@@ -81,6 +81,7 @@ type vAssocOpts struct {
 	zeroChecksum bool
 	blockWrite   bool
 	maxEntries   uint32
+	realWindow   bool // keep the TSN tracking window the constructor chose (32+ words)
 }
 
 // vNewAssoc builds an association with a symbolic initial TSN, in state established,
@@ -101,6 +102,11 @@ func vNewAssocOpts(o vAssocOpts) (*Association, *vConn) {
 	a.localInterleaving = o.interleaving
 	a.peerVerificationTag = nondetU32()
 	a.sourcePort, a.destinationPort = 5000, 5000
+	if !o.realWindow {
+		// small TSN tracking window (192 TSNs, 4-word ring): keeps bitmap terms small;
+		// the real sizes are covered by the C05 harnesses
+		a.payloadQueue = newReceivePayloadQueue(192)
+	}
 	a.payloadQueue.init(nondetU32())
 	a.setState(established)
 	if o.interleaving {
